@@ -449,6 +449,10 @@ def run(program, ctx):
     rule_hastag(program, ctx)
     rule_readonly_filters(program, ctx)
     rule_listqueries(program, ctx)
+    from . import c02
+
+    # the list builder takes the end of the row stream as 'that is all'
+    c02.rule_rows(program, ctx, prop=P, rid="C16.rows")
     from . import c04
 
     # the static black/white lists are compared as strings with event.pubkey: they rely on admission accepting only the canonical lower-case spelling
